@@ -18,6 +18,16 @@ CHECKS = {
          'through the structure of the bisect lookup (all boundary classes occur within the bound).',
          'bounded-exhaustive enumeration of strings x positions x offsets on the real code, definitional oracle',
          'DESIGN.md section 4 C20'),
+ 'C11': ('model_checking',
+         'Explicit-state exploration of the real LatexTokenReader: every state (remaining input, configuration) for all words of length '
+         '<= 3 (quick) / 4 (thorough) over a 15-symbol alphabet x 6172 configurations (math mode and delimiter, 2^7 enable_* switches, extra group '
+         'delimiters, with/without context db, strict/tolerant, forbidden/escape/comment characters); the single outgoing transition of every state is executed '
+         '(peek, read, rewind, re-read) and checked for purity of peek, progress, losslessness and rewind; complete runs check <= len(s) reads, '
+         'reconstruction of the input and the suffix-closure argument that makes one transition per state a complete exploration.',
+         'Trusted: the suffix-closure argument (itself checked on every step of every complete run); token equality is on (tok, arg, pos, pos_end, pre_space, post_space). '
+         'Longer inputs are covered only through the tokenizer looking ahead a bounded distance.',
+         'explicit-state exploration of the implementation (states x one transition each, complete runs), invariants per transition',
+         'DESIGN.md section 4 C11'),
 }
 
 NOT_YET = 'not claimed yet: the exhaustive check for this property is still under construction (see DESIGN.md section 9)'
